@@ -14,6 +14,18 @@ Runtime-only [R] second opinions on the implementation: exact symmetry of the re
 matrices, minimum eigenvalue, builder vs pairwise __call__, composite = its components
 on the slices, and central differences of the implementation's own values (this last
 one is the oracle used to look for a concrete failing input when a goal fails).
+
+Offset data (added after seeded change C10_2; Properties/C10Offset.v): two fifths of the
+cases are repeated with an integer vector (+-[2^e, 2^(e+1)), e = 10..31, exact in double)
+added to every data / query point and to the change-point locations -- time stamps, map
+coordinates.  Theorems: every entry of __call__, build_covariance, every gradient matrix
+and the diagonal terms of the moved problem equal those of the original (ktranslated: base
+kernels, sums, change-points, any nesting), the Gram matrix K(x+c, x+c) has the quadratic
+form of K(x, x), and the squared-exponential kernel IS positive semi-definite (proved:
+C10_se_psd).  Run: the same goals on the offset coordinates (plus entries of the generic
+evaluation K(x, x) itself), and as oracle on the implementation: eigenvalues of K(x, x)
+(every case), builder vs pairwise, and every returned matrix against the one returned for
+the original data.
 """
 from __future__ import annotations
 
@@ -39,6 +51,14 @@ THEOREMS = [
     "C10_changepoint_grad_pinned_two_kernels", "C10_changepoint3_grad_refuted",
 ]
 
+OFFSET_THEOREMS = [
+    "C10_offset_base_kernels", "C10_offset_sum", "C10_offset_sum_stationary",
+    "C10_offset_changepoint", "C10_offset_changepoint_stationary",
+    "C10_offset_entries", "C10_offset_cross_entries", "C10_offset_builder_eq_pairwise",
+    "C10_offset_gram_quadratic_form", "C10_gram_psd_anywhere",
+    "C10_se_psd", "C10_se_builder_psd", "C10_se_composites_psd",
+]
+
 PREAMBLE = """From Coq Require Import Reals List.
 From Interval Require Import Tactic.
 From IT Require Import Model.Slices RealModel.Kernels RealModel.Means.
@@ -58,6 +78,9 @@ Import ListNotations.
 Open Scope string_scope.
 """
 H_STEP = Fraction(1, 2 ** 20)      # central-difference step (exact in double)
+EPS = 2.0 ** -52
+# exponents e of the offsets +-[2^e, 2^(e+1)) given to at least one coordinate of the m-th offset case
+OFFSET_EXPONENTS = [31, 24, 28, 20, 26, 17, 30, 22, 14, 27, 19, 11, 29, 23, 16, 25, 21, 13]
 
 
 def mods():
@@ -88,6 +111,12 @@ def has_noise(spec):
     if spec["t"] in ("wn", "hn"):
         return True
     return any(has_noise(s) for s in spec.get("ks", []))
+
+
+def base_kinds(spec):
+    if spec["t"] in ("se", "rq", "wn", "hn"):
+        return [spec["t"]]
+    return [b for s in spec["ks"] for b in base_kinds(s)]
 
 
 def describe_spec(spec):
@@ -254,6 +283,112 @@ def vec(xs):
     return np.array([float(x) for x in xs], dtype=float)
 
 
+# ------------------------------------------------------------------ offset data (translations)
+def layout(spec, d, n, off=0):
+    """Walks the flat hyper-parameter vector in the order of gen_theta (= the model's ksum / kcp).
+    Returns (n_params, scales, cps): scales = [(index of ln l_k, k)] for every SE / RQ
+    length-scale, cps = [(index of the location, index of the width, axis)] for every change-point."""
+    t = spec["t"]
+    if t == "se":
+        return d + 1, [(off + 1 + j, j) for j in range(d)], []
+    if t == "rq":
+        return d + 2, [(off + 2 + j, j) for j in range(d)], []
+    if t == "wn":
+        return 1, [], []
+    if t == "hn":
+        return n, [], []
+    tot, scales, cps = 0, [], []
+    for s in spec["ks"]:
+        m, sc, cp = layout(s, d, n, off + tot)
+        tot += m
+        scales += sc
+        cps += cp
+    if t == "cp":
+        for _ in range(len(spec["ks"]) - 1):
+            cps.append((off + tot, off + tot + 1, spec["axis"]))
+            tot += 2
+    return tot, scales, cps
+
+
+def exact_double(q):
+    return C.frac(float(q)) == q
+
+
+def moved(case, c, sign):
+    """The same problem with sign*c added to every point of xs, u, v and sign*c[axis] to every
+    change-point location (exact rationals); asserts that all of them are doubles."""
+    mv = lambda ps: [[x + sign * ck for x, ck in zip(p, c)] for p in ps]
+    th = list(case["theta"])
+    for loc, _, ax in layout(case["spec"], case["d"], case["n"])[2]:
+        th[loc] = th[loc] + sign * c[ax]
+    out = dict(case, xs=mv(case["xs"]), u=mv(case["u"]), v=mv(case["v"]), theta=th)
+    for q in [x for p in out["xs"] + out["u"] + out["v"] for x in p] + th:
+        assert exact_double(q), "translated problem is not representable in double"
+    return out
+
+
+def translate(case, c, new_id):
+    out = moved(case, [int(v) for v in c], +1)
+    out["shift"] = [int(v) for v in c]
+    out["id"] = new_id
+    return out
+
+
+def origin_case(case):
+    """The problem of which `case` is the translate by case['shift'] (exact)."""
+    if not case.get("shift"):
+        return case
+    out = moved(case, case["shift"], -1)
+    out["shift"] = None
+    return out
+
+
+def gen_shift(ro, case, m, new_id):
+    """Integer offsets +-[2^e, 2^(e+1)) per coordinate, e in 10..31; one coordinate gets the
+    exponent OFFSET_EXPONENTS[m] so that every run covers the whole range."""
+    d = case["d"]
+    forced = ro.randrange(d)
+    while True:
+        c = []
+        for j in range(d):
+            e = OFFSET_EXPONENTS[m % len(OFFSET_EXPONENTS)] if j == forced else ro.randint(10, 31)
+            c.append(ro.choice([1, 1, -1]) * ro.randint(1 << e, (2 << e) - 1))
+        try:
+            return translate(case, c, new_id)
+        except AssertionError:      # more than 53 bits needed: draw again
+            continue
+
+
+def allowance_fn(case):
+    """Relative error of one kernel value k(p, q) that round-off of the order of one ulp of the
+    COORDINATES may cause (any evaluation that forms p/l, q/l or (x - location)/width in double
+    has it); 16x margin.  Zero for cases near the origin (their obligations are unchanged).
+    A kernel evaluated through |p|^2 + |q|^2 - 2 p.q is wrong by eps*(|p|/l)^2, i.e.
+    |p| / (16 |p - q|) times more (and by eps*(|p|/l)^2 on the diagonal, where this is zero
+    for kernels without change-points)."""
+    if not case.get("shift"):
+        return lambda p, q: 0.0
+    import math
+    d, n = case["d"], case["n"]
+    th = [float(t) for t in case["theta"]]
+    _, scales, cps = layout(case["spec"], d, n)
+    lmin = [min([math.exp(th[idx]) for idx, k in scales if k == j], default=math.inf) for j in range(d)]
+
+    def allow(p, q):
+        p = [float(x) for x in p]
+        q = [float(x) for x in q]
+        a = sum((abs(p[j]) + abs(q[j])) * abs(p[j] - q[j]) / lmin[j] ** 2 for j in range(d))
+        for _, w, ax in cps:
+            a += (abs(p[ax]) + abs(q[ax])) / abs(th[w])
+        return 16 * EPS * a
+    return allow
+
+
+def allowance_matrix(case, ps, qs):
+    al = allowance_fn(case)
+    return np.array([[al(p, q) for q in qs] for p in ps], dtype=float)
+
+
 # ------------------------------------------------------------------ running the code
 def run_impl(case):
     """Everything the implementation returns for the case (floats), or an error."""
@@ -299,6 +434,14 @@ def run_impl(case):
     return out
 
 
+def non_finite(out):
+    """Names of the returned matrices that contain inf / nan (never legitimate: the model is finite everywhere)."""
+    mats = [("build_covariance", out.get("build")), ("covariance_and_gradients[0]", out.get("cag_K")),
+            ("__call__(u, v)", out.get("call")), ("__call__(x, x)", out.get("call_xx"))]
+    mats += [(f"gradient {p}", g) for p, g in enumerate(out.get("grads", []))]
+    return [name for name, M in mats if M is not None and not bool(np.isfinite(M).all())]
+
+
 def eval_build(case, theta):
     cov, _ = mods()
     with warnings.catch_warnings():
@@ -309,14 +452,22 @@ def eval_build(case, theta):
 
 
 # ------------------------------------------------------------------ the property, on the implementation
-def oracle(case, out, entries=None):
+def oracle(case, out, entries=None, origin_out=None):
     """Evaluate C10 itself on what the implementation returned.  Returns a list of
-    (key, what, detail) -- empty when the property holds on this input."""
+    (key, what, detail) -- empty when the property holds on this input.
+    For an offset case (case['shift']) `origin_out` is what the implementation returned for the
+    same problem moved back to the origin (computed here when not given)."""
     bad = []
     n, np_ = case["n"], len(case["theta"])
+    shifted = bool(case.get("shift"))
+    A_xx = allowance_matrix(case, case["xs"], case["xs"]) if shifted else np.zeros((n, n))
+    where = f" [data offset by {case['shift']}]" if shifted else ""
     if out["status"] == "exception":
         return [("C10/exception", f"the implementation raised on a valid input ({out['where']}): {out['error']}", {})]
     B, Kc, G = out["build"], out["cag_K"], out["grads"]
+    nf = non_finite(out)
+    if nf:
+        return [("C10/non-finite", f"{', '.join(nf[:3])} contain(s) inf / nan on a valid input" + where, {"matrices": nf[:6]})]
     scale = max(1e-300, float(np.abs(B).max()))
     if B.shape != (n, n) or Kc.shape != (n, n):
         bad.append(("C10/shape", f"build_covariance has shape {B.shape}, expected {(n, n)}", {}))
@@ -350,20 +501,37 @@ def oracle(case, out, entries=None):
         else:
             D = B - P
             off = D - np.diag(np.diag(D))
-            if float(np.abs(off).max()) > 1e-12 * scale:
-                bad.append(("C10/builder-offdiag", "build_covariance differs from __call__(x, x) off the diagonal", {}))
+            if bool(np.any(np.abs(off) > (1e-12 + A_xx) * scale)):
+                i, j = np.unravel_index(int((np.abs(off) - A_xx * scale).argmax()), off.shape)
+                bad.append(("C10/builder-offdiag",
+                            f"build_covariance differs from __call__(x, x) off the diagonal: entry ({i},{j}) "
+                            f"{B[i, j]:.12g} vs {P[i, j]:.12g}" + where, {"i": int(i), "j": int(j)}))
             for i in range(n):
                 dd = Fraction(float(B[i, i])) - Fraction(float(P[i, i]))
                 jit = Fraction(float(P[i, i])) / 10 ** 12
+                slack = Fraction(float(A_xx[i, i])) * abs(Fraction(float(B[i, i])))     # 0 near the origin
                 if has_noise(case["spec"]):
-                    okd = dd >= jit * Fraction(98, 100)
+                    okd = dd >= jit * Fraction(98, 100) - slack
                 else:
-                    okd = abs(dd - jit) <= jit * Fraction(2, 100)
+                    okd = abs(dd - jit) <= jit * Fraction(2, 100) + slack
                 if not okd:
                     bad.append(("C10/builder-diagonal",
-                                f"diagonal entry {i}: build - pairwise = {float(dd):.6g}, jitter a^2*1e-12 = {float(jit):.6g}",
+                                f"diagonal entry {i}: build - pairwise = {float(dd):.6g}, jitter a^2*1e-12 = {float(jit):.6g}" + where,
                                 {"i": i}))
                     break
+            # the generic pairwise evaluation K(x, x) is itself symmetric positive semi-definite
+            ps = max(1e-300, float(np.abs(P).max()))
+            asym = float(np.abs(P - P.T).max())
+            if asym > 1e-13 * ps:
+                bad.append(("C10/symmetry", f"__call__(x, x) is not symmetric (max |K - K^T| = {asym:.3g})" + where,
+                            {"matrix": "__call__(x, x)"}))
+            evs = np.linalg.eigvalsh((P + P.T) / 2)
+            if float(evs.min()) < -(1e-10 + n * float(A_xx.max())) * ps:
+                bad.append(("C10/psd-call", f"__call__(x, x) has eigenvalue {float(evs.min()):.3g} "
+                                            f"(largest {float(evs.max()):.3g})" + where, {}))
+    # offset data: every returned matrix equals the one returned for the data moved back to the origin
+    if shifted:
+        bad += oracle_translation(case, out, origin_out, A_xx)
     # gradients = central differences of the implementation's own build_covariance
     h = H_STEP
     worst = None
@@ -388,6 +556,40 @@ def oracle(case, out, entries=None):
         bad.append((key, f"gradient w.r.t. hyper-parameter {p} ('{lab}') entry ({i},{j}) is {g:.9g} but the central "
                          f"difference of build_covariance (h = 2^-20) is {f:.9g}", {"p": p, "i": i, "j": j}))
     bad += oracle_components(case, out)
+    return bad
+
+
+def oracle_translation(case, out, origin_out, A_xx):
+    """Theorem C10_offset_entries on the implementation: the matrices returned on the offset data
+    against those returned for the same problem at the origin."""
+    bad = []
+    oc = origin_case(case)
+    o0 = origin_out if origin_out is not None else run_impl(oc)
+    if o0["status"] == "exception":
+        return [("C10/translation", f"the problem moved back to the origin by {case['shift']} raises: {o0['error']}", {})]
+    n = case["n"]
+    sc = max(1e-300, float(np.abs(o0["build"]).max()))
+    pairs = [("build_covariance", out["build"], o0["build"], A_xx, 1.0)]
+    pairs += [(f"gradient {p}", g, g0, A_xx, 4.0) for p, (g, g0) in enumerate(zip(out["grads"], o0["grads"]))]
+    if out["status"] == "ok" and o0["status"] == "ok":
+        pairs.append(("__call__(x, x)", out["call_xx"], o0["call_xx"], A_xx, 1.0))
+        pairs.append(("__call__(u, v)", out["call"], o0["call"], allowance_matrix(case, case["u"], case["v"]), 1.0))
+    worst = None
+    for name, M, M0, A, f in pairs:
+        if M.shape != M0.shape:
+            bad.append(("C10/translation", f"{name} has shape {M.shape} on the offset data, {M0.shape} at the origin", {}))
+            return bad
+        ms = max(sc, float(np.abs(M0).max()))
+        exc = np.abs(M - M0) - (1e-12 + f * A) * ms
+        i, j = np.unravel_index(int(exc.argmax()), exc.shape)
+        if float(exc[i, j]) > 0 and (worst is None or float(exc[i, j]) / ms > worst[0]):
+            worst = (float(exc[i, j]) / ms, name, int(i), int(j), float(M[i, j]), float(M0[i, j]))
+    if worst is not None:
+        _, name, i, j, a, b = worst
+        bad.append(("C10/translation",
+                    f"{name} entry ({i},{j}) is {a:.12g} on the data offset by {case['shift']} but {b:.12g} "
+                    f"for the same points, change-point locations moved along, at the origin",
+                    {"matrix": name, "i": i, "j": j}))
     return bad
 
 
@@ -455,37 +657,59 @@ def goals_for(case, out, r, budget):
     goals = []
     B, Kc, G = out["build"], out["cag_K"], out["grads"]
     scale = float(np.abs(B).max())
+    # offset cases: what one ulp of the coordinates may do (zero near the origin), see allowance_fn
+    shifted = bool(case.get("shift"))
+    al = allowance_fn(case)
+    xs, us, vs = case["xs"], case["u"], case["v"]
+    extra = lambda a, s, f=1: Fraction(f * a) * C.frac(max(s, 1e-300)) if a else 0
+    sfx = "@off" if shifted else ""
 
-    def add(kind, term, obs, meta, tol=None):
+    def add(kind, term, obs, meta, tol):
         gid = f"c{k}_{kind}_{len(goals)}"
-        t = tol if tol is not None else tol_for(obs, scale)
-        goals.append((gid, I.goal_abs_close(term, obs, t), dict(meta, kind=kind, case=k, obs=float(obs))))
+        goals.append((gid, I.goal_abs_close(term, obs, tol), dict(meta, kind=kind + sfx, case=k, obs=float(obs))))
+
+    def entries(m):
+        if shifted and m == 1:      # one entry per matrix: an off-diagonal one (n >= 2)
+            return [r.choice([(i, j) for i in range(n) for j in range(i + 1, n)])]
+        return pick_entries(r, n, m)
 
     # build_covariance: upper triangle
-    for (i, j) in pick_entries(r, n, budget["build"]):
-        add("build", f"kbuild K_{k} xs_{k} th_{k} {i} {j}", B[i, j], {"i": i, "j": j})
+    for (i, j) in entries(budget["build"]):
+        add("build", f"kbuild K_{k} xs_{k} th_{k} {i} {j}", B[i, j], {"i": i, "j": j},
+            tol_for(B[i, j], scale) + extra(al(xs[i], xs[j]), scale))
     # covariance_and_gradients value
-    for (i, j) in pick_entries(r, n, budget["cag"]):
-        add("cagK", f"kbuild K_{k} xs_{k} th_{k} {i} {j}", Kc[i, j], {"i": i, "j": j})
+    for (i, j) in entries(budget["cag"]):
+        add("cagK", f"kbuild K_{k} xs_{k} th_{k} {i} {j}", Kc[i, j], {"i": i, "j": j},
+            tol_for(Kc[i, j], scale) + extra(al(xs[i], xs[j]), scale))
     # every gradient matrix
     for p, g in enumerate(G):
         gs = max(scale, float(np.abs(g).max()))
-        for (i, j) in pick_entries(r, n, budget["grad"]):
+        if shifted and r.random() >= budget.get("grad_fraction", 1.0):
+            continue            # offset twins: a random subset of the gradient matrices (all of them are in the oracle)
+        for (i, j) in entries(budget["grad"]):
             add("grad", f"kgrad K_{k} xs_{k} th_{k} {p} {i} {j}", g[i, j], {"p": p, "i": i, "j": j},
-                tol=I.tolerance(g[i, j], rel=1e-9, absolute=0) + Fraction(1, 10 ** 11) * C.frac(gs))
+                tol=I.tolerance(g[i, j], rel=1e-9, absolute=0) + Fraction(1, 10 ** 11) * C.frac(gs)
+                    + extra(al(xs[i], xs[j]), gs, 4))
     # __call__
     if out["status"] == "ok" and out["call"].shape == (len(case["u"]), len(case["v"])):
         cs = max(scale, float(np.abs(out["call"]).max()))
         ents = [(a, b) for a in range(len(case["u"])) for b in range(len(case["v"]))]
         for (a, b) in (ents if len(ents) <= budget["call"] else r.sample(ents, budget["call"])):
             add("call", f"kval K_{k} th_{k} (point us_{k} {a}) (point vs_{k} {b})", out["call"][a, b], {"a": a, "b": b},
-                tol=I.tolerance(out["call"][a, b], rel=1e-9, absolute=0) + Fraction(1, 10 ** 11) * C.frac(cs))
-        # documented diagonal terms: (build - pairwise)[i, i], to 2% of the jitter
+                tol=I.tolerance(out["call"][a, b], rel=1e-9, absolute=0) + Fraction(1, 10 ** 11) * C.frac(cs)
+                    + extra(al(us[a], vs[b]), cs))
         P = out["call_xx"]
         if P.shape == (n, n):
+            # the generic evaluation on the data points themselves, K(x, x): a diagonal entry and off-diagonal ones
+            ps = max(scale, float(np.abs(P).max()))
+            for (i, j) in pick_entries(r, n, budget.get("callxx", 0)) if budget.get("callxx") else []:
+                add("callxx", f"kval K_{k} th_{k} (point xs_{k} {i}) (point xs_{k} {j})", P[i, j], {"i": i, "j": j},
+                    tol=I.tolerance(P[i, j], rel=1e-9, absolute=0) + Fraction(1, 10 ** 11) * C.frac(ps)
+                        + extra(al(xs[i], xs[j]), ps))
+            # documented diagonal terms: (build - pairwise)[i, i], to 2% of the jitter
             for i in r.sample(range(n), min(n, budget["diag"])):
                 dd = C.frac(B[i, i]) - C.frac(P[i, i])
-                t = Fraction(2, 10 ** 14) * abs(C.frac(B[i, i]))
+                t = Fraction(2, 10 ** 14) * abs(C.frac(B[i, i])) + extra(al(xs[i], xs[i]), abs(float(B[i, i])))
                 add("diag", f"(kbuild K_{k} xs_{k} th_{k} {i} {i} - kval K_{k} th_{k} (point xs_{k} {i}) (point xs_{k} {i}))",
                     dd, {"i": i}, tol=t)
     return goals
@@ -645,7 +869,8 @@ def describe(case):
             "theta": [str(t) for t in case["theta"]],
             "u": [[str(c) for c in p] for p in case["u"]], "v": [[str(c) for c in p] for p in case["v"]],
             "y": [str(t) for t in case["y"]],
-            "kernel": describe_spec(case["spec"])}
+            "kernel": describe_spec(case["spec"]),
+            **({"shift": case["shift"]} if case.get("shift") else {})}
 
 
 def undescribe(c):
@@ -653,7 +878,7 @@ def undescribe(c):
     return {"id": 0, "spec": c["spec"], "d": c["d"], "n": c["n"],
             "xs": [[F(x) for x in p] for p in c["xs"]], "theta": [F(t) for t in c["theta"]],
             "u": [[F(x) for x in p] for p in c["u"]], "v": [[F(x) for x in p] for p in c["v"]],
-            "y": [F(t) for t in c["y"]]}
+            "y": [F(t) for t in c["y"]], **({"shift": c["shift"]} if c.get("shift") else {})}
 
 
 def shrink(case, key):
@@ -679,14 +904,65 @@ def shrink(case, key):
     return cur
 
 
+def check_goals_robust(rep, goals, chunk, jobs, timeout):
+    """interval.check_goals chunk by chunk; a chunk whose coqc process could not be run to the end (killed by
+    the kernel's out-of-memory handler on a crowded machine, timed out) is run again, up to twice, with fewer
+    processes at a time.  A goal only counts as proved when coqc accepted the file it is in, and a goal that
+    coqc rejected stays rejected, so the retry cannot hide a disagreement; a file that is broken for a reason
+    of its own (e.g. the model no longer compiles) is broken again and reported."""
+    from concurrent.futures import ThreadPoolExecutor
+    chunks = [goals[i:i + chunk] for i in range(0, len(goals), chunk)]
+
+    def one(i, tag):
+        return I.check_goals(PROP, f"goals{tag}_{i}", chunks[i], preamble=PREAMBLE, unfold="kcbv;",
+                             chunk=len(chunks[i]), jobs=1, timeout=timeout)
+    with ThreadPoolExecutor(max_workers=jobs) as ex:
+        res = list(ex.map(lambda i: one(i, ""), range(len(chunks))))
+    redo = [i for i, (_, b) in enumerate(res) if b]
+    for attempt in (1, 2):
+        if not redo:
+            break
+        rep.count("goal files run again (process killed / timed out)", len(redo))
+        with ThreadPoolExecutor(max_workers=max(1, jobs // 4)) as ex:
+            again = list(ex.map(lambda i: one(i, f"_retry{attempt}"), redo))
+        for i, r2 in zip(redo, again):
+            res[i] = r2
+        redo = [i for i in redo if res[i][1]]
+    failed = [f for fl, _ in res for f in fl]
+    broken = [b for _, bl in res for b in bl]
+    return failed, broken
+
+
 def run(rep: C.Report, tier: str) -> int:
     r = C.rng_for(PROP, "cases")
     n_cases = 36 if tier == "quick" else 300
     budget = ({"build": 4, "cag": 2, "grad": 2, "call": 3, "diag": 2} if tier == "quick"
               else {"build": 8, "cag": 3, "grad": 3, "call": 4, "diag": 3})
+    # offset twins: fewer entries per matrix (one off-diagonal entry of every gradient matrix), plus
+    # entries of the generic evaluation on the data points themselves
+    obudget = ({"build": 2, "cag": 1, "grad": 1, "grad_fraction": 0.6, "call": 3, "callxx": 3, "diag": 2} if tier == "quick"
+               else {"build": 3, "cag": 1, "grad": 1, "grad_fraction": 0.6, "call": 3, "callxx": 4, "diag": 2})
+    ro = C.rng_for(PROP, "offsets")
     C.clean_gen(PROP)
     C.prove_and_audit(rep, PROP, THEOREMS)
+    # the audit of the offset / PSD theorems runs while the implementation is exercised
+    from concurrent.futures import ThreadPoolExecutor
+    audit_pool = ThreadPoolExecutor(max_workers=1)
+    offset_audit = audit_pool.submit(C.coq_audit, PROP + "_offset", OFFSET_THEOREMS, "IT.Properties.C10Offset")
 
+    def collect_offset_audit():
+        try:
+            info = offset_audit.result()
+            rep.obligation(True, len(OFFSET_THEOREMS))
+            rep.coverage["offset_audit"] = info
+        except C.ProofFailure as e:
+            rep.obligation(False, len(OFFSET_THEOREMS))
+            rep.violation("C10/proof", f"proof obligation no longer checks: {e.what}",
+                          {"theorem_or_correspondence": e.what, "log": e.log[-1500:]}, False)
+        finally:
+            audit_pool.shutdown(wait=False)
+
+    twins, twin_outs, origin_of = [], [], {}
     cases, outs, goals, meta = [], [], [], {}
     defs = [CASES_HEADER]
     acc = {"base": [], "composite": [], "changepoint": []}
@@ -722,6 +998,9 @@ def run(rep: C.Report, tier: str) -> int:
         if any(M.shape != (case["n"], case["n"]) for M in mats) or len(out["grads"]) != len(case["theta"]):
             suspicious.setdefault(k, []).append("shapes of returned matrices")
             continue
+        if non_finite(out):
+            suspicious.setdefault(k, []).append("inf / nan in " + ", ".join(non_finite(out)[:3]))
+            continue
         for g in goals_for(case, out, r, budget):
             goals.append((g[0], g[1], None))
             meta[g[0]] = g[2]
@@ -733,6 +1012,48 @@ def run(rep: C.Report, tier: str) -> int:
             structure_cases(out["kernel"], case["d"], case["n"], acc)
         except Exception as e:
             suspicious.setdefault(k, []).append(f"bookkeeping raised: {e!r}")
+        # the same problem on offset data (5 and 6 are coprime: every kernel family gets its turn)
+        if k % 5 in (1, 3):
+            tk = n_cases + len(twins)
+            tc = gen_shift(ro, case, len(twins), tk)
+            to = run_impl(tc)
+            twins.append(tc)
+            twin_outs.append(to)
+            origin_of[tk] = k
+            cm = max(abs(v) for v in tc["shift"])
+            e5 = 5 * ((cm.bit_length() - 1) // 5)
+            rep.count("offset data: largest coordinate offset 2^%d..2^%d" % (e5, e5 + 5))
+            rep.count("offset data: kernel=" + shape_key(tc["spec"]))
+            rep.count("offset data: d=" + str(tc["d"]))
+            for b in sorted(set(base_kinds(tc["spec"]))):
+                rep.count("offset data: contains " + b)
+            rep.case(describe(tc), nontrivial=True)
+            if len(twins) <= 2:
+                rep.sample({"kernel": describe_spec(tc["spec"]), "shift": tc["shift"],
+                            "xs": [[float(x) for x in p] for p in tc["xs"]],
+                            "__call__(x,x)[0]": to["call_xx"][0].tolist() if "call_xx" in to else to.get("error")})
+            defs.append(case_defs(tc))
+            if to["status"] == "exception":
+                suspicious.setdefault(tk, []).append("exception on offset data: " + to["error"])
+            else:
+                if to["status"] == "call-exception":
+                    suspicious.setdefault(tk, []).append("__call__ raised on offset data: " + to["error"])
+                tm = [to["build"], to["cag_K"]] + to["grads"]
+                # measured: how many of the matrices returned on the offset data are bitwise those at the origin
+                pairs = list(zip(tm, [out["build"], out["cag_K"]] + out["grads"]))
+                if to["status"] == "ok" and out["status"] == "ok":
+                    pairs += [(to["call"], out["call"]), (to["call_xx"], out["call_xx"])]
+                rep.count("offset data: matrices compared with the origin", len(pairs))
+                rep.count("offset data: matrices not bitwise equal to the origin",
+                          sum(1 for a, b in pairs if a.shape != b.shape or not np.array_equal(a, b)))
+                if any(M.shape != (tc["n"], tc["n"]) for M in tm) or len(to["grads"]) != len(tc["theta"]):
+                    suspicious.setdefault(tk, []).append("shapes of returned matrices (offset data)")
+                elif non_finite(to):
+                    suspicious.setdefault(tk, []).append("inf / nan on offset data in " + ", ".join(non_finite(to)[:3]))
+                else:
+                    for g in goals_for(tc, to, ro, obudget):
+                        goals.append((g[0], g[1], None))
+                        meta[g[0]] = g[2]
         # a mean function rides along with every third case
         if k % 3 == 0:
             mc = dict(case, mean=MEANS[(k // 3) % 3])
@@ -751,6 +1072,11 @@ def run(rep: C.Report, tier: str) -> int:
             tag = BASE_TAG[type(mo["obj"]).__name__]
             acc["base"].append(f"({tag}, {case['d']}, {case['n']}, {mo['n_params']}, [" + "; ".join(cstr(s) for s in mo["labels"]) + "])")
 
+    # offset twins take the ids n_cases, n_cases + 1, ... (= their index in `cases`)
+    cases += twins
+    outs += twin_outs
+    rep.coverage["offset_cases"] = len(twins)
+
     # ---- Coq: case definitions, interval goals, exact bookkeeping
     d = C.GEN / PROP
     d.mkdir(parents=True, exist_ok=True)
@@ -760,11 +1086,12 @@ def run(rep: C.Report, tier: str) -> int:
         rep.obligation(False)
         rep.violation("C10/correspondence-run", "generated case definitions do not compile",
                       {"theorem_or_correspondence": "coq/gen/C10/Cases.v", "log": log[-1500:]}, False)
+        collect_offset_audit()
         return finish(rep)
+    collect_offset_audit()
     for g in goals:
         rep.count("goal=" + meta[g[0]]["kind"])
-    failed, broken = I.check_goals(PROP, "goals", goals, preamble=PREAMBLE, unfold="kcbv;",
-                                   chunk=max(20, len(goals) // 14 + 1), jobs=14, timeout=900)
+    failed, broken = check_goals_robust(rep, goals, chunk=min(160, max(20, len(goals) // 14 + 1)), jobs=14, timeout=900)
     rep.obligation(True, len(goals) - len(failed))
     rep.obligation(False, len(failed))
     for b in broken:
@@ -806,7 +1133,7 @@ def run(rep: C.Report, tier: str) -> int:
     # ---- the property on the implementation: on every disagreement (search) and on every case ([R])
     reported = set()
     for k, (case, out) in enumerate(zip(cases, outs)):
-        bad = oracle(case, out)
+        bad = oracle(case, out, origin_out=outs[origin_of[k]] if k in origin_of else None)
         for key, what, det in bad:
             if key in reported:
                 continue
@@ -840,8 +1167,12 @@ def run(rep: C.Report, tier: str) -> int:
 
 def finish(rep):
     rep.assumptions = [
-        "PSD of the squared-exponential and rational-quadratic base kernels is a classical fact that is NOT proved "
-        "(hypothesis of the PSD theorems); the minimum eigenvalue of build_covariance is only tested [R]",
+        "PSD of the squared-exponential kernel is proved (C10_se_psd, any dimension); PSD of the rational-quadratic "
+        "base kernel is a classical fact that is NOT proved (hypothesis of the PSD theorems); the minimum eigenvalues of "
+        "build_covariance and of the generic evaluation K(x, x) are tested on every case [R]",
+        "offset cases: the tolerances are widened by what one ulp of the COORDINATES can do to a kernel value "
+        "(16*eps*sum_k (|u_k|+|v_k|)|u_k-v_k|/l_k^2, plus 16*eps*(|u|+|v|)/|width| per change-point; zero for the cases near "
+        "the origin); the offsets, offset points and moved change-point locations are exact doubles",
         "model values are compared with the implementation's doubles to 1e-9 relative + 1e-11*max|matrix| "
         "(diagonal terms build - pairwise: to 2e-14 relative, i.e. 2% of the 1e-12 jitter)",
         "x.mean / dot / sum(axis) / ** are modelled as exact real operations",
@@ -850,7 +1181,8 @@ def finish(rep):
     ]
     return rep.finish(
         level="proof",
-        checker_cmd="make -C /verif/coq (coqc 8.16.1, full .vo) + coqc on coq/gen/C10/*.v (coq-interval `interval`, vm_compute)",
+        checker_cmd="make -C /verif/coq (coqc 8.16.1, full .vo; Properties/C10.v, Properties/C10Offset.v) + coqc on "
+                    "coq/gen/C10/*.v (coq-interval `interval`, vm_compute)",
         trusted_base=C.KERNEL_TB + [
             "coq-interval 4.x reflexive interval evaluator (Uint63 / Bignums primitives)",
             "axioms (Coq Reals + Coquelicot): ClassicalDedekindReals.sig_forall_dec, sig_not_dec, "
@@ -859,7 +1191,12 @@ def finish(rep):
              "a change-point, change-point containing a sum; d 1..3, n 2..6, rational points (k/8) and hyper-parameters "
              "(k/16); per case: sampled upper-triangle entries of build_covariance, of covariance_and_gradients' value "
              "and of EVERY gradient matrix, entries of __call__ on separate point sets, diagonal terms; every third case "
-             "also a mean function; distinct = distinct (kernel tree, points, theta)")
+             "also a mean function; two fifths of the cases (k mod 5 in {1,3}) repeated on OFFSET data: integer vector "
+             "+-[2^e, 2^(e+1)), e = 10..31 per coordinate (one coordinate cycles through the whole range), added to data "
+             "points, query points and change-point locations -- goals on the offset coordinates for build_covariance, "
+             "covariance_and_gradients, 60% of the gradient matrices, __call__(u, v), __call__(x, x) and the diagonal "
+             "terms, and the implementation's matrices on the offset data against those at the origin; "
+             "distinct = distinct (kernel tree, points, theta)")
 
 
 def replay(path):
